@@ -37,3 +37,7 @@ claim("C09", "bounded-exhaustive enumeration of operation histories on the real 
       "For every explored history (all multisets of <=3 (thorough 4) operations over the alphabets, every ordering) every tracked (sub)term is probed literally, alpha-renamed, under every injective renaming into two 4-name pools, in five one-level wrappings and two shadowing forms: lookup/lookup_rec_expr succeed iff the reference says represented, modify nothing, are equivariant, agree with add_expr; add_expr of a represented term creates nothing; result slots are the free slots minus oracle-redundant ones; absent terms create a class.",
       "Same oracle trust as C01; after the first absent probe is inserted the iff-comparison is skipped.",
       "DESIGN.md 3.2, 5 C09")
+claim("C12", "bounded-exhaustive enumeration of operation multisets, each executed in every permutation and orientation on the real e-graph, differential comparison of the observations",
+      "Every multiset of 2-3 (thorough: up to 4) operations over the alphabets is executed in all distinct orders x all orientation patterns; all executions must agree on every eq answer over tracked (sub)terms x relative namings, live-class count, per-term non-redundant slot count and symmetry count.",
+      "Differential oracle (no expected value); agreement with the congruence closure itself is C01/C02.",
+      "DESIGN.md 5 C12")
